@@ -5,6 +5,7 @@
 // R20: the f32 comparison `*l == 0.0` -> f32_is_zero(*l) (trusted, uninterpreted predicate `is_zero`).
 use vstd::prelude::*;
 macro_rules! html_trace_quiet { ($($t:tt)*) => {} }
+macro_rules! html_trace { ($($t:tt)*) => {} }
 verus! {
 
 //@item src/lib.rs :: struct Colour
